@@ -1,7 +1,7 @@
 (* C01 Lattice merge is associative, commutative and idempotent.
    Only property theorems live here; each is closed by an exact of a lemma proved in
    Lattice/P*.v and followed by Print Assumptions. *)
-From HV Require Import Lattice.Univ Lattice.PUniv.
+From HV Require Import Lattice.Univ Lattice.PUniv Lattice.Point.
 
 (* every nesting of the shipped constructors (every type code), every well-formed triple;
    key_total is the property's own side condition on DomPair *)
@@ -27,6 +27,12 @@ Theorem C01_dom_needs_total_refuted :
     ~ E (ops t) (m (ops t) (m (ops t) a b) c) (m (ops t) a (m (ops t) b c)).
 Proof. exact dom_needs_total_refuted. Qed.
 Print Assumptions C01_dom_needs_total_refuted.
+
+(* point lattices only ever merge equal values (a merge of inequal values panics) *)
+Theorem C01_point : forall a b : N,
+  (a = b -> point_merge a b = Some (a, false)) /\ (a <> b -> point_merge a b = None).
+Proof. exact point_merge_spec. Qed.
+Print Assumptions C01_point.
 
 (* non-vacuity: a nested code satisfying the hypotheses with non-trivial well-formed values *)
 Example C01_nonvacuous :
